@@ -126,6 +126,7 @@ fn decode(t: &mut Tape) -> Case {
             a: amt::key(a),
             b: amt::key(b),
             note: format!("{} (aiming at {})", describe(o, ua, ub, a, b), c.models[o.r].row.units[target].konst),
+            chain: vec![],
         },
         placement: names[pl].to_string(),
     }
